@@ -154,7 +154,16 @@ func dataflowCase(c *Ctx, focus string) {
 		nested = true
 		c.Res.Probes["template-nested-array-of-maps-program"]++
 	}
-	if !AdvOn && !prog.ArrayOfMaps {
+	if focus == "C01" && (c.Plan.Draw(24) == 0 || os.Getenv("VERIF_NESTED_CHAIN") != "") {
+		// a map call over the results of a sibling map call, inside a map-called
+		// pipeline (known finding KF-C01-2)
+		NestedChain = true
+		prog = templateNestedProg(c.Plan)
+		NestedChain = false
+		nested = true
+		c.Res.Probes["template-nested-chained-map-calls-program"]++
+	}
+	if !AdvOn && !prog.ArrayOfMaps && !prog.NestedChain {
 		switch c.Plan.Draw(16) {
 		case 0, 1:
 			prog = templateDisabledProg(c.Plan)
@@ -202,7 +211,7 @@ func dataflowCase(c *Ctx, focus string) {
 		cfg.FCfg.MaxChunks = 9 + c.Plan.Draw(5)
 		c.Res.Probes["many-chunks-cases"]++
 	}
-	if prog.ArrayOfMaps {
+	if prog.ArrayOfMaps || prog.NestedChain {
 		cfg.MaxSteps = 12000 // most of these runs never finish (KF-C03-2)
 	}
 	cfg.FCfg.BigInts = c.Plan.Draw(3) == 0
@@ -334,6 +343,19 @@ func dataflowCase(c *Ctx, focus string) {
 		c.Res.Violations = append(c.Res.Violations, Violation{"SIM", "run-" + r.Class(),
 			"run did not terminate: " + lastLines(r.outBuf.String(), 8), r.Steps})
 	}
+	if prog.NestedChain {
+		// Known finding KF-C01-2: the second call's arguments cannot be resolved ("cannot
+		// filter int to int[]"), the pipestance fails or never finishes.  Everything such
+		// a run shows is filed under that finding.
+		for i := range c.Res.Violations {
+			v := &c.Res.Violations[i]
+			if v.Property == "OBS" {
+				continue
+			}
+			v.Msg = "[" + v.Property + " " + v.Oracle + "] " + v.Msg
+			v.Property, v.Oracle = "C01", "mapped-call-over-sibling-mapped-call-inside-mapped-pipeline"
+		}
+	}
 	if prog.ArrayOfMaps {
 		// Known finding KF-C03-2: martian does not get the forks of this shape right
 		// (forks of later outer elements are not expanded when the first element's map
@@ -420,6 +442,10 @@ var AdvOn bool
 // NestedAM makes templateNestedProg add a pipeline map-called over an array of typed maps
 // (the inner call is mapped over the keys of each element).
 var NestedAM bool
+
+// NestedChain makes templateNestedProg add, inside the map-called pipeline, a second map
+// call over the results of the first one.
+var NestedChain bool
 
 // NestedStatic makes templateNestedProg map ROW over a literal array of arrays.
 var NestedStatic bool
@@ -567,6 +593,12 @@ func templateNestedProg(plan *Tape) *Prog {
 	row := &PipelineDef{Name: "ROW", Ins: []Field{{"xs", intT.ArrayOf()}, {"k", intT}}, Outs: []Field{{"ys", intT.ArrayOf()}}}
 	row.Calls = []*CallDef{{Callee: "WORK", Id: "WORK", Mapped: true, Binds: []Bind{{"x", self("xs"), true}, {"k", self("k"), false}}}}
 	row.Ret = []Bind{{"ys", ref("WORK", "y"), false}}
+	if NestedChain {
+		// a second mapped call inside the mapped pipeline, over the results of the first
+		p.Stages = append(p.Stages, &StageDef{Name: "WORK2", SrcKind: "comp", Ins: []Field{{"x", intT}}, Outs: []Field{{"z", intT}}})
+		row.Calls = append(row.Calls, &CallDef{Callee: "WORK2", Id: "WORK2", Mapped: true, Binds: []Bind{{"x", ref("WORK", "y"), true}}})
+		p.NestedChain = true
+	}
 	top := &PipelineDef{Name: "TOPX", Ins: []Field{{"n", intT}}}
 	top.Calls = []*CallDef{{Callee: "MAKE", Id: "MAKE", Binds: []Bind{{"n", self("n"), false}}}}
 	lit := func(v int) *Expr { return &Expr{Kind: ELit, Val: int64(v), T: intT} }
